@@ -36,6 +36,14 @@ Proof.
   - intros H. exists n. split; [assumption|apply name_eqb_refl].
 Qed.
 
+Lemma method_name_spec n ps :
+  h_name (to_code n ps) = normalized_name n /\
+  (is_keyword n = true -> normalized_name n = n ++ [95]) /\
+  (is_keyword n = false -> normalized_name n = n).
+Proof.
+  split; [reflexivity|]. unfold normalized_name. split; intros ->; reflexivity.
+Qed.
+
 (* a declaration none of whose parameters is called self *)
 Definition no_self (ps : list param) : Prop :=
   forall p, In p ps -> name_eqb (p_name p) SELF = false.
